@@ -237,6 +237,12 @@ fn render_attr(it: &Value) -> Vec<String> {
         "interface" => format!("module M\n{a} interface I {{ op() }}\n"),
         "operation" => format!("module M\ninterface I {{ {a} op(p: int32) }}\n"),
         "operation_ret" => format!("module M\ninterface I {{ {a} op(p: int32) -> bool }}\n"),
+        "operation_streamparam" => format!("module M\ninterface I {{ {a} op(p: int32, q: stream uint8) }}\n"),
+        "operation_retstream" => format!("module M\ninterface I {{ {a} op(p: int32) -> stream uint8 }}\n"),
+        "operation_rettuple" => format!("module M\ninterface I {{ {a} op() -> (r1: int32, r2: bool) }}\n"),
+        "operation_rettuplestream" => format!("module M\ninterface I {{ {a} op() -> (r1: int32, r2: stream bool) }}\n"),
+        "cstruct" => format!("module M\n{a} compact struct S {{ f: int32 }}\n"),
+        "cenum" => format!("module M\n{a} compact enum E {{ A(x: int32), B }}\n"),
         "parameter" => format!("module M\ninterface I {{ op({a} p: int32) }}\n"),
         "retmember" => format!("module M\ninterface I {{ op() -> ({a} r1: int32, r2: bool) }}\n"),
         "enum" => format!("module M\n{a} enum E {{ A }}\n"),
